@@ -161,7 +161,11 @@ pub fn run_c15(tier: Tier) -> ! {
                 c15_stream(&s, &key, case, s.len(), &mut out, &mut c);
             } else {
                 // long streams: growable and default buffers only
-                let traces = run_frontends(BufKind::Vec, &s, FeSet::All);
+                let mut traces = run_frontends(BufKind::Vec, &s, FeSet::All);
+                if p.len() <= 65537 {
+                    // a fixed buffer that is large enough must not change anything (its own counters!)
+                    traces.extend(run_frontends(BufKind::Arr(65537), &s, FeSet::Core));
+                }
                 let push = traces[0].normalized();
                 for tr in traces[1..].iter().chain(run_default_readers(&s).iter()) {
                     c.inc("front-end runs compared with the push decoder");
@@ -230,10 +234,12 @@ pub enum Fault {
     Other,
     BrokenPipe,
     TimedOut,
+    /// 300 consecutive `Interrupted` answers at one position (one deviation)
+    IntrBurst,
     Eof,
 }
 impl Fault {
-    const ALL: [Fault; 6] = [Fault::WouldBlock, Fault::Interrupted, Fault::Other, Fault::BrokenPipe, Fault::TimedOut, Fault::Eof];
+    const ALL: [Fault; 7] = [Fault::WouldBlock, Fault::Interrupted, Fault::Other, Fault::BrokenPipe, Fault::TimedOut, Fault::IntrBurst, Fault::Eof];
     /// what an `embedded_hal::serial::Read` can answer besides a byte
     const EH: [Fault; 2] = [Fault::WouldBlock, Fault::Other];
     fn token(self) -> &'static str {
@@ -243,6 +249,7 @@ impl Fault {
             Fault::Other => "Other",
             Fault::BrokenPipe => "BrokenPipe",
             Fault::TimedOut => "TimedOut",
+            Fault::IntrBurst => "InterruptedX300",
             Fault::Eof => "Eof",
         }
     }
@@ -259,9 +266,16 @@ struct SchedRead<'a> {
     sched: &'a [(usize, Fault)],
     eof: bool,
     calls_seen: &'a Cell<usize>,
+    burst_left: usize,
 }
 impl<'a> std::io::Read for SchedRead<'a> {
     fn read(&mut self, buf: &mut [u8]) -> std::io::Result<usize> {
+        // a burst of interruptions occupies one schedule slot: its repeats do not advance the
+        // call counter that the schedule refers to
+        if self.burst_left > 0 {
+            self.burst_left -= 1;
+            return Err(std::io::Error::new(std::io::ErrorKind::Interrupted, "intr"));
+        }
         let c = self.call;
         self.call += 1;
         self.calls_seen.set(self.call);
@@ -271,6 +285,10 @@ impl<'a> std::io::Read for SchedRead<'a> {
         if let Some((_, f)) = self.sched.iter().find(|(k, _)| *k == c) {
             use std::io::{Error, ErrorKind};
             match f {
+                Fault::IntrBurst => {
+                    self.burst_left = 299;
+                    return Err(Error::new(ErrorKind::Interrupted, "intr"));
+                }
                 Fault::WouldBlock => return Err(Error::new(ErrorKind::WouldBlock, "wb")),
                 Fault::Interrupted => return Err(Error::new(ErrorKind::Interrupted, "intr")),
                 Fault::Other => return Err(Error::new(ErrorKind::Other, "other")),
@@ -397,7 +415,7 @@ fn drive_real(stream: &[u8], sched: &[(usize, Fault)], drv: Driver, max_calls: u
     let calls = Cell::new(0usize);
     let mut res: Vec<CallRes> = vec![];
     let r = guarded(|| {
-        let src = SchedRead { s: stream, i: 0, call: 0, sched, eof: false, calls_seen: &calls };
+        let src = SchedRead { s: stream, i: 0, call: 0, sched, eof: false, calls_seen: &calls, burst_left: 0 };
         let mut rd = SmlReader::with_static_buffer::<64>().from_reader(src);
         let mut ends = 0;
         for _ in 0..max_calls {
@@ -489,7 +507,7 @@ fn drive_ref(stream: &[u8], sched: &[(usize, Fault)], drv: Driver, max_calls: us
             }
             match fault {
                 Some(Fault::WouldBlock) => break Some(Ev::Io(IoK::WouldBlock, 0)),
-                Some(Fault::Interrupted) => continue,
+                Some(Fault::Interrupted) | Some(Fault::IntrBurst) => continue,
                 Some(Fault::Other) | Some(Fault::BrokenPipe) | Some(Fault::TimedOut) => {
                     let n = seg.unacc[p];
                     seg_from += p;
@@ -695,7 +713,7 @@ pub fn run_c11(tier: Tier) -> ! {
     let cov = J::obj()
         .set("evaluations", n)
         .set("distinct_nontrivial", counts.get("schedules with a visible WouldBlock") + counts.get("schedules where an error discards pending bytes") + counts.get("schedules where end of input finds pending bytes"))
-        .set("rule", "choice points = every call of io::Read::read made by the reader; default answer = next byte (Ok(0) at the end, persistently); deviations = WouldBlock, Interrupted, Other, BrokenPipe, TimedOut, premature persistent end of input (io::Read source) and WouldBlock, Other (embedded-hal serial source, which has no end of input); every placement of up to k deviations (same position repeated included) on each stream, for the drivers next / read / next_nb / read_nb, run to completion and compared call by call with the reference reader; non-trivial = schedules in which a fault became visible or cost pending bytes")
+        .set("rule", "choice points = every call of io::Read::read made by the reader; default answer = next byte (Ok(0) at the end, persistently); deviations = WouldBlock, Interrupted, a burst of 300 Interrupted, Other, BrokenPipe, TimedOut, premature persistent end of input (io::Read source) and WouldBlock, Other (embedded-hal serial source, which has no end of input); every placement of up to k deviations (same position repeated included) on each stream, for the drivers next / read / next_nb / read_nb, run to completion and compared call by call with the reference reader; non-trivial = schedules in which a fault became visible or cost pending bytes")
         .set("samples", vec!["stream 1b1b1b1b0101010112340000 1b1b1b1b1a02.... driver next schedule [3:WouldBlock,9:Other]", "stream 55 1b + frame(000000) + 1b1b01 driver read_nb schedule [0:Interrupted,1:Interrupted]"])
         .set("states", n)
         .set("transitions", n)
@@ -862,8 +880,12 @@ pub enum Source {
     IterRef,
     Cursor,
     OneByte,
+    /// io::Read with varying chunk sizes
+    Chunked,
+    /// io::Read that reports Interrupted before every second read
+    Interrupting,
 }
-pub const SOURCES: [Source; 5] = [Source::Slice, Source::IterVal, Source::IterRef, Source::Cursor, Source::OneByte];
+pub const SOURCES: [Source; 7] = [Source::Slice, Source::IterVal, Source::IterRef, Source::Cursor, Source::OneByte, Source::Chunked, Source::Interrupting];
 struct DriveVisit<'a> {
     s: &'a [u8],
     src: Source,
@@ -880,6 +902,8 @@ impl<'a> BufVisitor for DriveVisit<'a> {
             Source::IterRef => drive!(B::builder().from_iterator(s.iter()), ch),
             Source::Cursor => drive!(B::builder().from_reader(std::io::Cursor::new(s)), ch),
             Source::OneByte => drive!(B::builder().from_reader(OneByteRead { s, i: 0 }), ch),
+            Source::Chunked => drive!(B::builder().from_reader(crate::fe::ChunkedRead { s, i: 0, pattern: &[40, 64, 3, 100], k: 0, intr: 0, calls: 0 }), ch),
+            Source::Interrupting => drive!(B::builder().from_reader(crate::fe::ChunkedRead { s, i: 0, pattern: &[1, 7, 64], k: 0, intr: 2, calls: 0 }), ch),
         });
         r.unwrap_or_else(|p| vec![Res::Panic(p)])
     }
@@ -890,6 +914,8 @@ fn drive_default(s: &[u8], src: Source, ch: &[u8]) -> Vec<Res> {
         Source::IterVal => drive!(SmlReader::from_iterator(s.iter().copied()), ch),
         Source::IterRef => drive!(SmlReader::from_iterator(s.iter()), ch),
         Source::Cursor | Source::OneByte => drive!(SmlReader::from_reader(std::io::Cursor::new(s)), ch),
+        Source::Chunked => drive!(SmlReader::from_reader(crate::fe::ChunkedRead { s, i: 0, pattern: &[40, 64, 3, 100], k: 0, intr: 0, calls: 0 }), ch),
+        Source::Interrupting => drive!(SmlReader::from_reader(crate::fe::ChunkedRead { s, i: 0, pattern: &[1, 7, 64], k: 0, intr: 2, calls: 0 }), ch),
     })
     .unwrap_or_else(|p| vec![Res::Panic(p)])
 }
@@ -1063,6 +1089,57 @@ fn next_cap(n: usize) -> usize {
     crate::dec::CAPS.iter().copied().find(|&c| c >= n).unwrap_or(8192)
 }
 
+/// One file of more than 2^16 bytes between two small ones (see run_c10).
+fn c10_bigfile(pool: &[(Vec<u8>, Option<RFile>)]) -> (Vec<Viol>, u64) {
+    // one file of more than 2^16 bytes (3300 messages, between 2^16 and 70 000 bytes) between two small ones, through every source
+    // with a growable buffer and with a fixed buffer that is just large enough
+        // as many messages as it takes to get between 2^16 + 64 and 70 000 bytes
+        let mut big: RFile = vec![];
+        let mut big_bytes = vec![];
+        let mut i = 0u32;
+        while big_bytes.len() < 66_500 {
+            for _ in 0..50 {
+                big.push(RMsg { tid: vec![(i % 251) as u8], group: 0, abort: 0, body: RBody::Close { sig: if i % 3 == 0 { Some(vec![i as u8, 0x1b]) } else { None } } });
+                i += 1;
+            }
+            big_bytes = encode_file(&big, &[]).0;
+        }
+        if read_file(&big_bytes).as_ref() != Ok(&big) || big_bytes.len() <= 65536 + 64 || big_bytes.len() > 70000 {
+            machinery("C10 big file: generator/reader disagree or the file is not longer than 2^16 bytes");
+        }
+        let small = &pool[1];
+        let mut stream = vec![0x1b];
+        stream.extend(canon(&small.0));
+        stream.extend_from_slice(&[0x55, 0x1b, 0x1b]);
+        stream.extend(canon(&big_bytes));
+        stream.extend(canon(&small.0));
+        let items: Vec<(Source, BufKind, u8)> = SOURCES.iter().flat_map(|&src| [BufKind::Vec, BufKind::Arr(70000)].into_iter().flat_map(move |k| (0..3u8).map(move |c| (src, k, c)))).collect();
+        let parts = par_chunks(items.len() as u64, 1, |a, _| {
+            let (src, k, c) = items[a as usize];
+            let ch = vec![c; 6];
+            let got = crate::dec::with_buf(k, DriveVisit { s: &stream, src, choices: &ch }).unwrap();
+            let f = |bytes: &Vec<u8>, file: &RFile| match c {
+                0 => Res::Bytes(bytes.clone()),
+                1 => Res::File(Ok(file.clone())),
+                _ => Res::Events(file.clone(), None),
+            };
+            let sf = small.1.clone().unwrap();
+            let want = vec![Res::DecodeErr(DecodeErr::DiscardedBytes(1)), f(&small.0, &sf), Res::DecodeErr(DecodeErr::DiscardedBytes(3)), f(&big_bytes, &big), f(&small.0, &sf), Res::End];
+            if got != want {
+                Some(Viol {
+                    class: "C10 SmlReader does not yield exactly the transmitted files / noise counts / end of input".into(),
+                    key: format!("bigfile:{:?}:{}:{}", src, k.name(), c),
+                    what: format!("file of {} bytes between two small files, {:?}/{} choice {}: expected [{}] got [{}]", big_bytes.len(), src, k.name(), c, want.iter().map(res_short).collect::<Vec<_>>().join(", "), got.iter().map(res_short).collect::<Vec<_>>().join(", ")),
+                    case: J::obj().set("engine", "e3").set("check", "C10big"),
+                    size: 1,
+                })
+            } else {
+                None
+            }
+        });
+        (parts.into_iter().flatten().collect::<Vec<Viol>>(), items.len() as u64)
+}
+
 pub fn run_c10(tier: Tier) -> ! {
     let ctx = Ctx::new("C10", tier);
     let pool = c10_pool();
@@ -1150,6 +1227,14 @@ pub fn run_c10(tier: Tier) -> ! {
         tally.merge(t);
         counts.merge(&c);
     }
+    {
+        let (vs, n) = c10_bigfile(&pool);
+        for v in vs {
+            tally.add(v);
+        }
+        counts.addn("reader runs", n);
+        counts.addn("runs over a file of more than 2^16 bytes", n);
+    }
     ctx.log(&format!("outcomes {:?}", counts.0));
     counts.require(&["reader runs", "choice vectors of the full tree"]);
     let n = counts.get("reader runs");
@@ -1194,6 +1279,9 @@ pub fn replay(case: &J) -> Vec<Viol> {
                 .collect();
             let eh = case.get("source").and_then(|x| x.as_str()) == Some("embedded-hal");
             c11_case(&s, &sched, drv, eh, &mut out, &mut c);
+        }
+        Some("C10big") => {
+            out.extend(c10_bigfile(&c10_pool()).0);
         }
         Some("C10") => {
             let arr = |k: &str| -> Vec<usize> { case.get(k).and_then(|a| a.as_arr()).map(|a| a.iter().filter_map(|x| x.as_i()).map(|x| x as usize).collect()).unwrap_or_default() };
